@@ -57,7 +57,7 @@ SPEC = {
              "case is non-trivial if it executed a Set/Delete/round trip or parsed a header; distinct = distinct hash of "
              "the operation/argument sequence or of the header bytes."),
     "coverage_extra": {"exhaustive_subspaces": {"composite ordered subsets of size <= 4 of the 5 built-in propagators": 206}},
-    "rule_extra": ' Run e2-threads: case j = 2..8 threads doing 20..200 round trips each through ONE shared BaggagePropagator and ONE shared CompositePropagator (W3C + baggage), 1..6 entries with characters that need escaping, under TSan with seeded yields/sleeps; each thread must read back its own entries and ids.',
+    "rule_extra": ' Run e2-threads: case j = 2..8 threads doing 20..200 round trips each through ONE shared BaggagePropagator and ONE shared CompositePropagator (W3C + baggage), 1..6 entries with characters that need escaping, under TSan with seeded yields/sleeps; each thread must read back its own entries and ids. Round 2: Set and Delete are also judged on every extracted baggage (which may bind a key twice); every 8th case injects a Set-built baggage whose header is exactly 8190-8192 bytes and must get it back.',
     "assumptions": ASSUME_COMMON + [
         "domain restriction of the statement applied literally: a value with ',' after its first ';' or with metadata ending in a blank is counted and not judged for the round trip; baggages whose header exceeds 180 members / 4096-byte member / 8192 bytes likewise",
         "Set/Delete with non-printable or empty keys/values are outside the statement: only 'no invalid member is stored' and 'receiver unchanged' are judged",
